@@ -82,6 +82,10 @@ type Case struct {
 	Ops   []Op   `json:"ops"`
 	// Conc: scripts of the goroutines of the concurrent phase (C04 only)
 	Conc [][]ConcOp `json:"conc,omitempty"`
+	// FreeRace (C06 only): after the history, for each entry K the K-th outstanding block is freed by
+	// FreeRaceG goroutines at once: in every serial order exactly one of them succeeds
+	FreeRace  []uint64 `json:"freerace,omitempty"`
+	FreeRaceG int      `json:"freeraceg,omitempty"`
 }
 
 // ---- the reference model ------------------------------------------------
@@ -463,6 +467,7 @@ func Exec(c Case) (res core.Result) {
 	}
 	m := newModel(&c)
 	sawFull, sawRealloc, sawMustFailFree, sawHintNonFirst := false, false, false, false
+	conc := false
 	everFreed := map[uint64]bool{}
 	fam := "v4"
 	if c.V6 {
@@ -538,12 +543,75 @@ func Exec(c Case) (res core.Result) {
 		}
 	}
 
-	conc := false
 	if len(c.Conc) > 0 {
 		conc = true
 		if v := m.runConcurrent(a, c.Conc); v != nil {
 			res.Viol = v
 			return
+		}
+	}
+
+	for _, k := range c.FreeRace {
+		idx, ok := m.kthHeld(k)
+		if !ok {
+			break
+		}
+		conc = true
+		var ipn net.IPNet
+		if c.V6 {
+			ip, _ := m.addr6(new(big.Int).SetUint64(idx), 0)
+			ipn = net.IPNet{IP: ip, Mask: net.CIDRMask(c.Page, 128)}
+		} else {
+			ipn = net.IPNet{IP: u32ip(c.Start+uint32(idx), false), Mask: net.CIDRMask(32, 32)}
+		}
+		g := c.FreeRaceG
+		if g < 2 {
+			g = 2
+		}
+		// the window between "is it outstanding?" and "release it" is narrow: many rounds on the same block
+		for round := 0; round < 150; round++ {
+			var wg sync.WaitGroup
+			var okCount atomic.Int32
+			start := make(chan struct{})
+			for i := 0; i < g; i++ {
+				wg.Add(1)
+				go func() {
+					defer wg.Done()
+					defer func() { recover() }()
+					<-start
+					if a.Free(ipn) == nil {
+						okCount.Add(1)
+					}
+				}()
+			}
+			close(start)
+			if !core.WaitTimeout(&wg, nil, 60*time.Second) {
+				res.Viol = core.Violate("C06/wedged", "concurrent Free calls did not return")
+				return
+			}
+			if n := okCount.Load(); n != 1 {
+				res.Viol = core.Violate("C06/"+fam+"/concurrent-free-of-one-block", "round %d: %d goroutines freed outstanding block %d (%s) at once: %d of them succeeded, in every serial order exactly one does", round, g, idx, ipn.String(), n)
+				return
+			}
+			// take the block again for the next round (a hint on a free block is honoured: C07)
+			got, err := a.Allocate(ipn)
+			if err != nil || !got.IP.Equal(ipn.IP) {
+				// some other block came back: abandon the phase, other properties speak about that
+				if err == nil {
+					if j, v := m.checkBlock(got, resolvedHint{v6Canon: c.V6, canonLen: c.Page}); v == nil {
+						m.held[j] = true
+					}
+				}
+				delete(m.held, idx)
+				break
+			}
+		}
+		if m.held[idx] {
+			if a.Free(ipn) != nil {
+				res.Viol = core.Violate("C06/"+fam+"/free-of-outstanding-fails", "Free(%s) of outstanding block %d failed after the concurrent rounds", ipn.String(), idx)
+				return
+			}
+			delete(m.held, idx)
 		}
 	}
 
@@ -587,7 +655,7 @@ func Exec(c Case) (res core.Result) {
 	case "C05":
 		res.NonTrivial = sawFull || straddle
 	case "C06":
-		res.NonTrivial = sawMustFailFree
+		res.NonTrivial = sawMustFailFree || len(c.FreeRace) > 0
 	case "C07":
 		res.NonTrivial = sawHintNonFirst
 	}
